@@ -217,16 +217,47 @@ impl Prop for C11 {
                 },
             ));
         }
+        // (c2) chains of conversions on one line --------------------------------------------------
+        {
+            let dz = default_zones(tier);
+            f.push(Family::new(
+                "conversion-chains",
+                Mode::Full,
+                "'T Z0 to Z1 to Z2 ... to Zk' for k in 2..=6 over zone cycles from [EST, CET, PST, IST, JST, UTC, GMT+5:30] (every rotation) x times [9:20, 23:45] under every default zone: the shown time is the source wall time in the last zone, however many hops the line has",
+                move |ch| {
+                    let names = ["EST", "CET", "PST", "IST", "JST", "UTC", "GMT+5:30"];
+                    let off = |n: &str| -> i32 {
+                        if n == "GMT+5:30" {
+                            330
+                        } else {
+                            *spec().zones.get(n).unwrap_or(&0)
+                        }
+                    };
+                    let (tzset, _, _) = *ch.pick(&dz);
+                    let k = 2 + ch.choose(5);
+                    let rot = ch.choose(names.len());
+                    let (tt, wall) = *ch.pick(&[("9:20", hms(9, 20, 0)), ("23:45", hms(23, 45, 0))]);
+                    let zs: Vec<&str> = (0..=k).map(|i| names[(rot + i) % names.len()]).collect();
+                    let mut text = format!("{} {}", tt, zs[0]);
+                    for z in &zs[1..] {
+                        text.push_str(&format!(" to {}", z));
+                    }
+                    let last = *zs.last().unwrap();
+                    let line = LineCase::new(text, Expect::Unspecified, "chain").with_cfg(cfg_tz(tzset));
+                    Some(Case::Line { line, want: Want::Time { utc_mod: m(wall - off(zs[0]) as i64 * 60), zone: last.to_string(), off: off(last) } })
+                },
+            ));
+        }
         // (d) T +- D ------------------------------------------------------------------------
         {
             let dz = default_zones(tier);
             f.push(Family::new(
                 "plus-minus-duration",
                 Mode::Full,
-                "T + D and T - D for T on a 12-time grid (incl. 00:00, 23:59:59) and D in [1 second, 59 minutes, 1 hour, 13 hours, 24 hours, 25 hours, 1 day, 49 hours 30 minutes, 52 weeks, 137 years, 4294967296 seconds, 80000000 minutes, 1000000 hours] (magnitudes beyond 2^31 and 2^32 seconds), under every default zone: the clock moves by D modulo 24 h",
+                "T + D and T - D for T on a 12-time grid (incl. 00:00, 23:59:59) and D in [1 second, 59 minutes, 1 hour, 13 hours, 24 hours, 25 hours, 1 day, 49 hours 30 minutes, 52 weeks, 137 years, 4294967296 seconds, 80000000 minutes, 1000000 hours] (magnitudes beyond 2^31 and 2^32 seconds), 300000 years and 10^8 days (beyond the range of calendar dates), durations written as 4, 5 and 7 parts, under every default zone: the clock moves by D modulo 24 h",
                 move |ch| {
                     let times: [(&str, i64); 12] = [("00:00", 0), ("0:01", 60), ("1:00", 3600), ("6:45", hms(6, 45, 0)), ("11:30", hms(11, 30, 0)), ("11:59:59", hms(11, 59, 59)), ("12:00", hms(12, 0, 0)), ("13:15", hms(13, 15, 0)), ("18:00:01", hms(18, 0, 1)), ("22:30", hms(22, 30, 0)), ("23:00", hms(23, 0, 0)), ("23:59:59", hms(23, 59, 59))];
-                    let ds: [(&str, i64); 13] = [("1 second", 1), ("59 minutes", 59 * 60), ("1 hour", 3600), ("13 hours", 13 * 3600), ("24 hours", 24 * 3600), ("25 hours", 25 * 3600), ("1 day", 86400), ("49 hours 30 minutes", 49 * 3600 + 1800), ("52 weeks", 52 * 7 * 86400), ("137 years", 137 * 365 * 86400), ("4294967296 seconds", 4294967296), ("80000000 minutes", 80000000 * 60), ("1000000 hours", 1000000 * 3600)];
+                    let ds: [(&str, i64); 18] = [("1 second", 1), ("59 minutes", 59 * 60), ("1 hour", 3600), ("13 hours", 13 * 3600), ("24 hours", 24 * 3600), ("25 hours", 25 * 3600), ("1 day", 86400), ("49 hours 30 minutes", 49 * 3600 + 1800), ("52 weeks", 52 * 7 * 86400), ("137 years", 137 * 365 * 86400), ("4294967296 seconds", 4294967296), ("80000000 minutes", 80000000 * 60), ("1000000 hours", 1000000 * 3600), ("300000 years", 300000 * 365 * 86400), ("100000000 days", 100000000 * 86400), ("1 day 2 hours 30 minutes 15 seconds", 86400 + 7200 + 1800 + 15), ("2 weeks 1 day 3 hours 4 minutes 5 seconds", 14 * 86400 + 86400 + 3 * 3600 + 245), ("1 year 1 month 1 week 1 day 1 hour 1 minute 1 second", 365 * 86400 + 30 * 86400 + 7 * 86400 + 86400 + 3661)];
                     let (tzset, label, off) = *ch.pick(&dz);
                     let (tt, wall) = *ch.pick(&times);
                     let (dt, dv) = *ch.pick(&ds);
